@@ -146,7 +146,11 @@ fn register_file(
         let entry = if file.is_file() {
             let ext = extension_of(path)?.into();
             let desc = FileDesc(id, ext);
-            files.insert(desc.clone(), index);
+            if files.insert(desc.clone(), index).is_some() {
+                // Already listed by an earlier member with the same path: the
+                // last member wins
+                return Some(());
+            }
             OwnedEntry::File(desc)
         } else {
             register_dir(dirs, &id);
